@@ -458,6 +458,10 @@ func runFaultsMode(c *fw.Ctx, sigPrefix string, keep func(kind string) bool, cra
 							continue
 						}
 						culprits = append(culprits, chain...)
+						// what a culprit pastes is part of it: a diagnostic inside the body of a macro that is
+						// pasted (also through other macros) below a culprit lies "inside" the culprit, as it
+						// would if the body were written in place
+						culprits = append(culprits, pastedMacros(f.nodes, culprits)...)
 						switch delivery {
 						case "paste":
 							if f.injected == nil || f.injected.Kw == "MACRO" || f.injected.Kw == "JSIGHT" || f.injected.Kw == "TAG" || f.injected.Kw == "Tags" ||
@@ -563,6 +567,38 @@ func runFaultsMode(c *fw.Ctx, sigPrefix string, keep func(kind string) bool, cra
 // faultProjectTap, when set, receives every faulty project runFaultsMode builds instead of its
 // own judgement (C02 judges them again under the other line-end conventions).
 var faultProjectTap func(label string, p drv.Project)
+
+// pastedMacros returns the MACRO definitions that the given nodes paste, directly or through other
+// macros.
+func pastedMacros(forest []*doc.Node, from []*doc.Node) []*doc.Node {
+	defs := map[string]*doc.Node{}
+	for _, n := range forest {
+		if n.Kw == "MACRO" && len(n.Params) > 0 {
+			defs[n.Params[0]] = n
+		}
+	}
+	seen := map[*doc.Node]bool{}
+	var out []*doc.Node
+	var visit func(n *doc.Node)
+	visit = func(n *doc.Node) {
+		doc.Walk([]*doc.Node{n}, func(x *doc.Node, _ int, _ *doc.Node) {
+			if x.Kw != "PASTE" || len(x.Params) == 0 {
+				return
+			}
+			if m := defs[x.Params[0]]; m != nil && !seen[m] {
+				seen[m] = true
+				out = append(out, m)
+				visit(m)
+			}
+		})
+	}
+	for _, n := range from {
+		if n != nil {
+			visit(n)
+		}
+	}
+	return out
+}
 
 // replaceNode replaces the node old by repl wherever it is in the forest.
 func replaceNode(nn *[]*doc.Node, old, repl *doc.Node) bool {
